@@ -228,6 +228,20 @@ def execute(plan, ctx):
                 ctx.fail("C18.ci_order", f"{name}_ci: entry for q={qs[a]} exceeds entry for q={qs[b]}: {lo[viol][:3]} > {hi[viol][:3]}")
                 break
     if blocks is None:
+        # The call order assumed by the block parser did not fit.  That alone is not a violation (the
+        # property does not fix an evaluation order): fall back to order-agnostic resampling checks.
+        ctx.probe("spy_log_unparseable")
+        first = f"m_{plan['metrics'][0]}"
+        allrows = [r for m, rows, _ in log1 if m == first for r in rows]
+        if len(allrows) != 2 * n * (1 + B) or not set(allrows) <= set(range(n)):
+            ctx.fail("C18.resample_size", f"metric calls cover {len(allrows)} rows in total, expected 2*n*(1+n_boot)={2 * n * (1 + B)} "
+                     f"(every resample must draw exactly n of the n data rows); parser: {ctx.obs.get('parse_reason')}")
+        elif n >= 8 and B >= 8:
+            from collections import Counter
+            cnt = Counter(allrows)
+            if len(cnt) == n and len(set(cnt.values())) == 1:
+                ctx.fail("C18.no_replacement", "every data row was evaluated equally often over all resamples (sampling without replacement?)")
+        ctx.state({"nsf": plan["nsf"], "ncf": plan["ncf"], "form": plan["form"], "parse": False})
         return
     # ---- 4. resampling clauses ----------------------------------------------------------------
     resamples = blocks[1:]
@@ -411,7 +425,7 @@ def _parse_blocks(ctx, plan, log):
         per_metric.setdefault(m, []).append((rows, val))
     counts = {m: len(v) for m, v in per_metric.items()}
     if len(set(counts.values())) != 1:
-        ctx.fail("C18.metric_calls", f"metrics were invoked a different number of times: {counts}")
+        ctx.obs["parse_reason"] = f"metrics were invoked a different number of times: {counts}"
         return None
     calls = per_metric[first]
     blocks = []
@@ -425,7 +439,7 @@ def _parse_blocks(ctx, plan, log):
             acc += calls[j][0]
             j += 1
         if len(acc) != n:
-            ctx.fail("C18.resample_size", f"block {len(blocks)}: overall calls cover {len(acc)} rows, expected n={n}")
+            ctx.obs["parse_reason"] = f"block {len(blocks)}: overall calls cover {len(acc)} rows, expected n={n}"
             return None
         ov_calls = list(range(i, j))
         # group part
@@ -435,15 +449,15 @@ def _parse_blocks(ctx, plan, log):
             acc2 += calls[k][0]
             k += 1
         if sorted(acc2) != sorted(acc):
-            ctx.fail("C18.resample_size", f"block {len(blocks)}: group calls do not partition the rows of the overall call(s) "
-                     f"({len(acc2)} vs {len(acc)} rows)")
+            ctx.obs["parse_reason"] = (f"block {len(blocks)}: group calls do not partition the rows of the overall call(s) "
+                                       f"({len(acc2)} vs {len(acc)} rows)")
             return None
         blk["rows"] = acc
         for c in ov_calls:
             rows = calls[c][0]
             key = _row_key(plan, rows[0], "control")
             if any(_row_key(plan, r, "control") != key for r in rows):
-                ctx.fail("C18.slice_mixed", "an overall call mixes rows of different control-feature values")
+                ctx.obs["parse_reason"] = "an overall call mixes rows of different control-feature values"
                 return None
             blk["overall"][key] = {m: per_metric[m][c][1] for m in per_metric}
             blk["controls"].add(key)
@@ -451,13 +465,13 @@ def _parse_blocks(ctx, plan, log):
             rows = calls[c][0]
             key = _row_key(plan, rows[0], "group")
             if any(_row_key(plan, r, "group") != key for r in rows):
-                ctx.fail("C18.slice_mixed", "a by-group call mixes rows of different groups")
+                ctx.obs["parse_reason"] = "a by-group call mixes rows of different groups"
                 return None
             blk["groups"][key] = {m: per_metric[m][c][1] for m in per_metric}
         blocks.append(blk)
         i = k
     if len(blocks) != 1 + B:
-        ctx.fail("C18.block_count", f"{len(blocks) - 1} resamples were evaluated, n_boot={B}")
+        ctx.obs["parse_reason"] = f"{len(blocks) - 1} resamples were evaluated, n_boot={B}"
         return None
     return blocks
 
